@@ -50,7 +50,11 @@ where
     }
 
     pub(crate) async fn run(mut self) {
+        #[cfg(pearl_verif)]
+        let _verif_worker_guard = crate::verif::WorkerGuard::enter();
         loop {
+            #[cfg(pearl_verif)]
+            crate::verif::PROBE.deferred.store(self.deferred_index_dump_info.is_some() as i64, Ordering::SeqCst);
             if self.index_dump_task.as_ref().map_or(false, |task| task.is_finished()) {
                 // Complete task if it is already finished
                 complete_task(&mut self.index_dump_task, "index_dump_task").await;
@@ -88,7 +92,11 @@ where
     async fn tick(&mut self) -> Result<TickResult> {
         match self.receiver.recv().await {
             Some(msg) => {
+                #[cfg(pearl_verif)]
+                let _verif_msg = VerifMsgGuard::new(&msg.optype);
                 self.process_msg(msg).await?;
+                #[cfg(pearl_verif)]
+                crate::verif::PROBE.deferred.store(self.deferred_index_dump_info.is_some() as i64, Ordering::SeqCst);
                 Ok(TickResult::Continue)
             },
             None => Ok(TickResult::Stop)
@@ -100,7 +108,11 @@ where
         let deadline = deadline + DEFERRED_PROCESS_DEADLINE_EPS;
         match timeout_at(deadline, self.receiver.recv()).await {
             Ok(Some(msg)) => {
+                #[cfg(pearl_verif)]
+                let _verif_msg = VerifMsgGuard::new(&msg.optype);
                 self.process_msg(msg).await?;
+                #[cfg(pearl_verif)]
+                crate::verif::PROBE.deferred.store(self.deferred_index_dump_info.is_some() as i64, Ordering::SeqCst);
                 Ok(TickResult::Continue)
             },
             Ok(None) => {
@@ -109,7 +121,11 @@ where
             Err(_) => {
                 // Deadline reached
                 self.next_deadline = None; // Reset deadline
+                #[cfg(pearl_verif)]
+                let _verif_msg = crate::verif::Gauge::enter(&crate::verif::PROBE.msgs);
                 self.process_defered().await?;
+                #[cfg(pearl_verif)]
+                crate::verif::PROBE.deferred.store(self.deferred_index_dump_info.is_some() as i64, Ordering::SeqCst);
                 Ok(TickResult::Continue)
             }
         }
@@ -227,7 +243,11 @@ where
         complete_task(&mut self.index_dump_task, "index_dump_task").await;
 
         let inner = self.inner.clone();
+        #[cfg(pearl_verif)]
+        let verif_gauge = crate::verif::Gauge::enter(&crate::verif::PROBE.dump_tasks);
         let task = tokio::spawn(async move {
+            #[cfg(pearl_verif)]
+            let _verif_gauge = verif_gauge;
             inner.try_dump_old_blob_indexes().await
         });
 
@@ -245,7 +265,11 @@ where
 
 
         let inner = self.inner.clone();
+        #[cfg(pearl_verif)]
+        let verif_gauge = crate::verif::Gauge::enter(&crate::verif::PROBE.fsync_tasks);
         let task = tokio::spawn(async move {
+            #[cfg(pearl_verif)]
+            let _verif_gauge = verif_gauge;
             if let Err(e) = inner.fsyncdata().await {
                 error!("failed to fsync data in {:?}: {:?}", inner.config().work_dir(), e);
             }
@@ -338,6 +362,28 @@ async fn complete_task(task: &mut Option<JoinHandle<()>>, task_name: &str) {
         } else {
             trace!("Background task '{}' completed", task_name);
         }
+    }
+}
+
+/// Marks a worker message as completely processed (also on the error path) and emits
+/// the `worker_begin` / `worker_end` events.
+#[cfg(pearl_verif)]
+struct VerifMsgGuard(u64);
+
+#[cfg(pearl_verif)]
+impl VerifMsgGuard {
+    fn new(optype: &OperationType) -> Self {
+        let op = optype.clone() as u64;
+        crate::verif::event("worker_begin", &[("optype", op)], None);
+        Self(op)
+    }
+}
+
+#[cfg(pearl_verif)]
+impl Drop for VerifMsgGuard {
+    fn drop(&mut self) {
+        crate::verif::event("worker_end", &[("optype", self.0)], None);
+        crate::verif::PROBE.msgs.fetch_sub(1, Ordering::SeqCst);
     }
 }
 
